@@ -146,6 +146,7 @@ class Metadata:
         """
         # Make a new group
         assert('/' not in self.name), f"Metadata names can't contain '/' - HDF5 would read '{self.name}' as a path"
+        assert(len(self.name)>0 and '\x00' not in self.name), "Metadata names can't be empty or contain NUL characters"
         grp = group.create_group(self.name)
         grp.attrs.create("emd_group_type","metadata")
         grp.attrs.create("python_class",self.__class__.__name__)
@@ -158,6 +159,7 @@ class Metadata:
         For some (key, value, group), saves the piece of metadata to group.
         """
         assert(isinstance(k,str) and '/' not in k), f"Metadata keys must be strings without '/' - HDF5 would read '{k}' as a path"
+        assert(len(k)>0 and '\x00' not in k), "Metadata keys can't be empty or contain NUL characters"
         # dict
         if isinstance(v,dict):
             _grp = grp.create_group(k)
